@@ -56,7 +56,8 @@ BOUND_NAME_LENS = [99, 100, 101, 154, 155, 156, 255, 256, 257, 1000]
 BOUND_IDS = [0, 2097151, 2097152, 16777215, 16777216, 2 ** 31, 2 ** 32 - 1]
 BOUND_MTIMES = [-1, 0, 2 ** 31, 2 ** 32 - 1, 2 ** 32, 2 ** 33 - 1, 2 ** 33, 2 ** 36]
 SUPPORTED_XATTR = (b"user.", b"trusted.", b"security.")
-TIMEOUT = 60
+TIMEOUT = 120                 # CPU seconds per tool run (RLIMIT_CPU): load on the machine cannot turn a slow run into a false "timeout"
+WALL_TIMEOUT = 3600           # wall clock backstop only (a process that sleeps forever)
 
 
 def sha(b):
@@ -1482,12 +1483,17 @@ def run(env, tool, args, stdin_path=None, stdin_bytes=None, extra_env=None, time
     fin = open(stdin_path, "rb") if stdin_path else subprocess.DEVNULL
     fout = open(stdout_path, "wb") if stdout_path else subprocess.PIPE
     r = NS(rc=None, out=b"", err=b"", crash=None, tool=tool, argv=argv)
+    # CPU-time limit through the shell's `ulimit -t` (no preexec_fn: that would force a real fork() of this large, multi-threaded
+    # process for every tool run instead of vfork/posix_spawn)
+    wrapped = ["/bin/sh", "-c", "ulimit -t %d; exec \"$@\"" % int(timeout), "sh"] + [a if isinstance(a, (bytes, str)) else str(a) for a in argv]
     try:
         if stdin_bytes is not None and not stdin_path:
-            p = subprocess.run(argv, input=stdin_bytes, stdout=fout, stderr=subprocess.PIPE, env=e, timeout=timeout)
+            p = subprocess.run(wrapped, input=stdin_bytes, stdout=fout, stderr=subprocess.PIPE, env=e, timeout=WALL_TIMEOUT)
         else:
-            p = subprocess.run(argv, stdin=fin, stdout=fout, stderr=subprocess.PIPE, env=e, timeout=timeout)
+            p = subprocess.run(wrapped, stdin=fin, stdout=fout, stderr=subprocess.PIPE, env=e, timeout=WALL_TIMEOUT)
         r.rc, r.out, r.err = p.returncode, p.stdout or b"", p.stderr or b""
+        if r.rc in (-24, -9) and b"Sanitizer" not in r.err:          # SIGXCPU (soft limit) / SIGKILL (hard limit): CPU time exhausted
+            r.crash = "timeout"
     except subprocess.TimeoutExpired as ex:
         r.rc, r.err, r.crash = -999, (ex.stderr or b""), "timeout"
     finally:
